@@ -69,8 +69,8 @@ def main(base_seed):
     with open(tmp) as f:
         d = json.load(f)
     os.remove(tmp)
-    if len(d["fault_kinds_fired"]) < 40:
-        zero.add("expsim: only %d of 40 fault kinds fired" % len(d["fault_kinds_fired"]))
+    if len(d["fault_kinds_fired"]) < 43:
+        zero.add("expsim: only %d of 43 fault kinds fired" % len(d["fault_kinds_fired"]))
     # corpus generator under two hash seeds, fresh interpreters
     digs = []
     for hs in ("0", "4242"):
